@@ -6,6 +6,7 @@ with tempfile.TemporaryDirectory() as d:
     out = os.path.join(d, 'r.xml')
     env = dict(os.environ); env.pop('PONY_VERIF', None)
     cmd = base['cmd'].replace('<file>', out)
+    if len(sys.argv) > 1: cmd = cmd.replace('cd /repo', 'cd ' + sys.argv[1])      # another tree (scratch worktree with a seeded change)
     p = subprocess.run(cmd, shell=True, env=env, stdout=subprocess.PIPE, stderr=subprocess.STDOUT, text=True)
     passed = set()
     for tc in ET.parse(out).getroot().iter('testcase'):
